@@ -311,6 +311,46 @@ def check_malformed(case):
     return {"nontrivial": True, "classes": classes}
 
 
+def fuzz_cuts_campaign(tier, seed, shard, n_shards, n_runs):
+    """One libFuzzer campaign (atheris) over the structured cuts decoder of fuzz/fuzz_cuts.py."""
+    import json
+    import subprocess
+    import sys
+    import tempfile
+    from pathlib import Path
+
+    from framework import core
+
+    root = Path(core.ROOT)
+    work = Path(tempfile.mkdtemp(prefix="fuzzcuts_"))
+    stats = work / "stats.json"
+    found = Path(core.OUT) / "replays" / "found"
+    cmd = [sys.executable, str(root / "fuzz" / "fuzz_cuts.py"), str(stats), str(found), f"-runs={n_runs}", f"-seed={seed}",
+           "-max_len=96", "-timeout=30", "-verbosity=0", "-print_final_stats=0"]
+    r = subprocess.run(cmd, cwd=str(work), capture_output=True, text=True)
+    out = {"evaluations": 0, "nontrivial": [], "classes": {}, "samples": [], "violation": None, "harness": None}
+    try:
+        d = json.loads(stats.read_text())
+        out.update(evaluations=d["evaluations"], nontrivial=d["nontrivial"], classes=d["classes"], samples=d["samples"][:2])
+        if d.get("violation"):
+            payload = json.loads(Path(d["violation"]).read_text())
+            out["violation"] = {"case": payload["case"], "message": payload["message"], "details": payload.get("details", {})}
+    except Exception as e:  # noqa: BLE001
+        out["harness"] = f"fuzz_cuts: no statistics ({type(e).__name__}: {e}); rc={r.returncode}; stderr tail: {r.stderr[-400:]}"
+    if r.returncode not in (0, 77) and out["harness"] is None and out["violation"] is None:
+        out["harness"] = f"fuzz_cuts: libFuzzer exited with {r.returncode}: {r.stderr[-400:]}"
+    import shutil
+    shutil.rmtree(work, ignore_errors=True)
+    return out
+
+
+def check_fuzz_case(case):
+    """Replay entry point of a fuzz finding: the decoded case is a plain JSON value."""
+    from fuzz.cuts_oracle import check_case
+
+    return check_case(case)
+
+
 FACETS = [
     Facet(name="integer_box", kind="enumerate", enumerate=box_cases, check=check_box, exhaustive=True,
           rule=("every integer tuple of [-2,n+2]^k (k=2,3,4) for n in {4,5,6} (thorough: up to 8 for k<=3), p in {1,2}, 17 scorers; "
@@ -321,4 +361,10 @@ FACETS = [
           rule=("batches mixing valid and invalid rows, float / integral-float / bool / int32 / wrong-width / 0-row / 3-D "
                 "arrays, nested lists, 1-D row vectors, empty list, descending rows in unsigned dtypes, rows whose difference overflows a narrow signed dtype, flat sequences holding several cuts, pandas containers (float / bool rejected, int64 accepted); every case is non-trivial"),
           n_quick=600, n_thorough=6000, shards_quick=4, shards_thorough=8),
+    Facet(name="fuzz_cuts", kind="external", external=fuzz_cuts_campaign, check=check_fuzz_case,
+          rule=("coverage-guided fuzzing (atheris / libFuzzer, coverage of the skchange package) of evaluate's cuts argument: bytes "
+                "are decoded into scorer x n x p x container {ndarray, list, tuple rows, DataFrame, Series, flat} x dtype {8 integer "
+                "kinds, float32/64, bool, object} x shape (0-3 rows, wrong width, 3-D, ragged) x values (around 0..n, dtype extremes); "
+                "the C13 oracle runs inside the target; non-trivial = an integer array with >= 1 row"),
+          n_quick=40000, n_thorough=400000, shards_quick=4, shards_thorough=16),
 ]
